@@ -44,6 +44,9 @@ where
     R: BufRead,
 {
     fn fill_buf(&mut self) -> io::Result<&[u8]> {
+        #[cfg(kani)]
+        use self::verif_kani::memchr_model as memchr;
+        #[cfg(not(kani))]
         use memchr::memchr;
 
         const PREFIX: u8 = b'#';
@@ -113,6 +116,10 @@ where
         }
     }
 }
+
+#[cfg(kani)]
+#[path = "/verif/harness/vcf/reader_header.rs"]
+mod verif_kani;
 
 #[cfg(test)]
 mod tests {
